@@ -10,7 +10,7 @@ from simkit import editor as E
 PROP = "C12"
 LEVEL = "exploration"
 BUDGET = {"quick": 150, "thorough": 900}
-RULE = ("Operation histories over a pool of 4 names (ASCII, non-ASCII, with a space, bytes-typed) and 4 simple definitions: "
+RULE = ("Operation histories over a pool of 4 names (ASCII, non-ASCII, with a space, bytes-typed) and 6 simple definitions (incl. filters whose only condition is false / true): "
         "add / update (onto self, existing, new) / replace (content from getfilter, with and without new name and "
         "description) / remove / enable / disable / move up|down, checked against a list model after every step. All "
         "histories up to length 3 (quick) / 4 (thorough) over an alphabet of 18 operations on 2 names are enumerated "
@@ -28,13 +28,15 @@ DEFS = [
     ([("size", ":over", "100k"), ("notexists", "X-A", "X-B")], [("redirect", ":copy", "a@b.c"), ("stop",)], "allof"),
     ([("envelope", ":is", ["From"], ["hello"])], [("keep",)], "anyof"),
     ([("Sender", ":notis", "t@t.com"), ("body", ":raw", ":contains", "m")], [("discard",)], "allof"),
+    ([("false",)], [("keep",), ("stop",)], "anyof"),
+    ([("true",)], [("stop",)], "allof"),
 ]
 
 # alphabet for the exhaustive part: (op, args...) over names a / b
 A, B = "a", "Ünï"
 ALPHABET = [
     ("add", A, 0), ("add", B, 1), ("add", A, 1),
-    ("update", A, A, 1), ("update", A, B, 0), ("update", B, A, 1),
+    ("update", A, A, 1), ("update", A, B, 0), ("update", B, A, 4),
     ("replace", A, B, None, None), ("replace", B, A, "c", "descr"),
     ("remove", A), ("remove", B),
     ("enable", A), ("disable", A), ("disable", B), ("enable", B),
